@@ -175,6 +175,31 @@ CHECKS = {
         note=TB + "; the CSR initiator is protocol-conforming, as the property states. A failing wiring.connect is a violation (the property names that attachment).",
         technique="TLA+ composition of two specs + TLC model checking; TLC trace validation of the real component in both attachments",
         design="5 (C14)"),
+    "C19": dict(
+        category="exploration",
+        text=("specs/Lifecycle.tla states C19 as an automaton per component instance (build -> built | refused "
+              "descriptively; every elaboration yields the hardware of the first; metadata never changes). The "
+              "instances come from the configuration generators of all other checks; each is built, converted "
+              "as a top-level component, converted with explicit ports, simulated twice under one stimulus and "
+              "converted again - up to six elaborations of ONE instance - with metadata fingerprints in between; "
+              "TLC validates every recorded life cycle. TLA+ is the oracle here; the detection power is that of "
+              "the enumeration (honestly an exploration, not a model-checking claim)."),
+        note=("non-termination is observed as RecursionError or a 90 s alarm; 'descriptive' = ValueError/TypeError "
+              "whose innermost frame is a raise statement; one open known finding (csr.Register as a top level)."),
+        technique="TLA+ life-cycle automaton as oracle; TLC trace validation of recorded build/elaborate/metadata histories",
+        design="5 (C19), 7, 8"),
+    "C20": dict(
+        category="exploration",
+        text=("specs/Ports.tla holds the member tables of every signature class as functions of their "
+              "parameters, the port-direction rule and the connect rule; TLC (Ports_MC) enumerates 1336 parameter "
+              "tuples (all 64 Wishbone feature subsets, all access/trigger modes) and checks the role rule on the "
+              "tables; for every tuple the real signature's flattened members, create() round trip and == "
+              "(against itself rebuilt from equivalent argument forms, and other tuples) are recorded, and for "
+              "seeded instances of every component class the bus-facing port's members and the result of a real "
+              "wiring.connect() with the complementary interface; TLC validates each record."),
+        note="static structure: TLA+ is oracle and enumerator, there is no behaviour to explore; component instances are seeded samples.",
+        technique="TLA+ tables as oracle, TLC enumeration of parameter tuples; TLC validation of recorded signature/port/connect facts",
+        design="5 (C20)"),
 }
 
 PENDING = "check not built yet in this round; see DESIGN.md section 13 for the build order"
